@@ -1,30 +1,32 @@
 import Tickit.Proof.EvLoopWF
 import Tickit.Proof.EvLoopOnceB
+import Tickit.Proof.EvLoopOnceIter
 import Tickit.Gen.EvLoop
 /-
   C17 — Timers and deferred callbacks run once, on time, in order, unless cancelled.
 
   The model (`Tickit.EvLoop`, Model/EvLoop.lean) transcribes src/tickit.c and src/evloop-default.c
-  statement by statement; `Config` selects the variant of the five places where a repair is
-  proposed (`Config.shipped` = the tree as it is, `Config.repaired` = all patches of fixes/ applied);
+  statement by statement; `Config` selects the variant of the eleven places that have been repaired
+  (`Config.shipped` = the tree as first shipped, `Config.repaired` = every patch of fixes/ applied, which is what /repo has now);
   the driver takes the variant from `Gen/EvLoop.lean`, which is regenerated from the C source.
 
   Every theorem below is universally quantified: over *all* states (arbitrary heap, queues, behaviour
   tables of the callbacks, clock), all fuel, or over all histories (`runOps cfg ops`), as stated.
   Callback behaviours are data in the state, so "whatever callbacks do" is part of the quantifier.
 
-  Proved for the tree as shipped *and* repaired: `queue_order_invariant`, `sorted_insert`,
+  Proved for the tree as first shipped *and* repaired: `queue_order_invariant`, `sorted_insert`,
   `never_early_shipped`/`never_early`, `order_shipped`/`order`, `cancel_exact`, `destroy_notifies_list`.
   Proved for the repaired timer loop: `no_due_timer_left`, `cancelled_never_runs`,
   `registered_in_callback_runs_in_order`.
-  Proved for the repaired source, across the iterations of every history (Proof/EvLoopOnce*.lean):
-  `invocation_count_is_per_watch`, `exactly_once` — the harness's per-slot count of FIRE invocations
-  (`SlotRec.fires`, incremented by `fireUser` together with the log entry) is at most 1 for a timer / deferred
-  callback, 0 while the watch is allocated — and then it is still queued —, and 1 once it is gone from a live
-  instance without a cancel having been asked for (`St.cancelReq`, a ghost the model's `doCancel` keeps).
-  Defects of the shipped tree: the `*_counterexample` theorems (kernel-checked runs of the model on the
-  minimal histories of corpus/C17; the same histories are replayed against the real library on
-  every check).  Statements not proved: the `def … : Prop` at the end (listed in engines.d/C17.json).
+  Proved for the repaired source (the text /repo has now), across the iterations of every history
+  (Proof/EvLoopOnce*.lean): `invocation_count_is_per_watch`, `exactly_once` — the harness's per-slot count of FIRE
+  invocations (`SlotRec.fires`, incremented by `fireUser` together with the log entry) is at most 1 for a timer /
+  deferred callback, 0 while the watch is allocated — and then it is still queued —, and 1 once it is gone from a live
+  instance without a cancel having been asked for (`St.cancelReq`, a ghost the model's `doCancel` keeps) — and for one
+  whole iteration (Proof/EvLoopOnceIter.lean): `exactly_once_iteration`.
+  Defects of the tree as first shipped: the `*_counterexample` theorems (kernel-checked runs of the model on the
+  minimal histories of corpus/C17; the same histories are replayed against the real library on every check); all are
+  repaired in /repo.  Statement not proved: `no_ub_full` at the end (engines.d/C17.json).
 -/
 namespace Tickit.Props.C17
 open Tickit Tickit.EvLoop
@@ -351,10 +353,83 @@ example : ((runOps .repaired [.beh ⟨0, 0, [.timerAt 3 999 0 0, .cancel 2]⟩, 
     (runOps .repaired [.beh ⟨0, 0, [.timerAt 3 999 0 0, .cancel 2]⟩, .act (.timer 0 0 0), .act (.timer 1 5 0), .act (.timer 2 7 0),
       .act (.later 4 0), .tick, .tick, .clock 5000, .tick, .tick]).cancelReq = [2] := by decide +kernel
 
+/-! ### exactly once, one whole iteration -/
+
+/-- Exactly once, for one iteration (`tickit_tick`, non-blocking or blocking) begun in any state a history of valid
+    usage reaches under the repaired source: a timer of the harness that is queued when the iteration begins and is due
+    when its timer phase starts (by the clock after the wait, `phaseClock`), and a deferred callback that is queued when
+    the iteration begins — if no cancel has been asked for it by the time the iteration ends — has not been invoked
+    before, is gone (released) when the iteration ends, and its count of FIRE invocations is then exactly 1: whatever the
+    other timers, deferred callbacks, io, signal and process callbacks of the iteration registered, cancelled or raised.
+    (Composes `exactly_once`, `no_due_timer_left`, `deferred_batch_runs_once_in_order`, "only new watches enter a queue",
+    and: the type of a timer / deferred callback never changes unless a cancel is asked — Proof/EvLoopOnceIter.lean.) -/
+theorem exactly_once_iteration (ops : List Op) (op : Op) (nohang : Bool)
+    (hop : (op = .tick ∧ nohang = true) ∨ (op = .tickhang ∧ nohang = false))
+    (hok0 : (runOps .repaired ops).status = .ok) (hal : (runOps .repaired ops).alive = true)
+    (hok : (runOps .repaired (ops ++ [op])).status = .ok) :
+    ∀ r ∈ (runOps .repaired ops).slots, r.k ∉ (runOps .repaired (ops ++ [op])).cancelReq →
+      ((r.handle ∈ (runOps .repaired ops).timers ∧
+          ((runOps .repaired ops).getW r.handle).due.gt
+            (TV.ofUs (phaseClock { runOps .repaired ops with stillRunning := true, log := [] } nohang)) = false) ∨
+        r.handle ∈ (runOps .repaired ops).laters) →
+      r.fires = 0 ∧ (runOps .repaired (ops ++ [op])).live r.handle = false ∧
+      ∃ r' ∈ (runOps .repaired (ops ++ [op])).slots, r'.k = r.k ∧ r'.handle = r.handle ∧ r'.fires = 1 := by
+  have b := b_runOps _ repaired_is_rep ops hok0
+  have hokb : (runOps .repaired ops).isOk = true := (St.isOk_iff _).mpr hok0
+  have b0 : B [] ({ runOps .repaired ops with stillRunning := true, log := [] } : St) :=
+    BStep.of_q0 (Q0.of_eq rfl rfl rfl rfl : Q0 (runOps .repaired ops) { runOps .repaired ops with stillRunning := true, log := [] })
+      (G4.of_eq rfl rfl rfl rfl rfl rfl rfl : G4 (runOps .repaired ops) { runOps .repaired ops with stillRunning := true, log := [] }).lstep
+      (R2.of_eq rfl rfl rfl rfl rfl rfl) b
+  have q0 : QInv ({ runOps .repaired ops with stillRunning := true, log := [] } : St) :=
+    (qinv_runOps .repaired ops).grow (Grow.of_eq rfl rfl)
+  have he : runOps .repaired (ops ++ [op]) =
+      tick defaultFuel { runOps .repaired ops with stillRunning := true, log := [] } nohang := by
+    have h1 : runOps .repaired (ops ++ [op]) = applyOp (runOps .repaired ops) op := by
+      unfold runOps; rw [List.foldl_append]; rfl
+    have hok1 : (!({ runOps .repaired ops with log := [] } : St).isOk) ≠ true := by
+      show (!(runOps .repaired ops).isOk) ≠ true
+      rw [hokb]; decide
+    have hal1 : (!({ runOps .repaired ops with log := [] } : St).alive) ≠ true := by
+      show (!(runOps .repaired ops).alive) ≠ true
+      rw [hal]; decide
+    rcases hop with ⟨h, hn⟩ | ⟨h, hn⟩
+    · subst h; subst hn
+      rw [h1]; unfold applyOp applyOp'
+      rw [if_neg hok1]; simp only []; rw [if_neg hal1]
+    · subst h; subst hn
+      rw [h1]; unfold applyOp applyOp'
+      rw [if_neg hok1]; simp only []; rw [if_neg hal1]
+  rw [he] at hok ⊢
+  intro r hr hnc hq
+  rcases hq with ⟨hin, hdue⟩ | hin
+  · have hmem : r.handle ∈ listOf ({ runOps .repaired ops with stillRunning := true, log := [] } : St) .timer := hin
+    obtain ⟨_, h2, h3, h4⟩ := timer_once_in_iteration defaultFuel _ nohang b0 q0 hal r hr (b0.wf.typ .timer _ hmem)
+      (b0.wf.live .timer _ hmem) hdue hok hnc
+    exact ⟨h2, h3, h4⟩
+  · have hmem : r.handle ∈ listOf ({ runOps .repaired ops with stillRunning := true, log := [] } : St) .later := hin
+    obtain ⟨_, h2, h3, h4⟩ := later_once_in_iteration defaultFuel _ nohang b0 hal r hr (b0.wf.typ .later _ hmem)
+      (b0.wf.live .later _ hmem) hok hnc
+    exact ⟨h2, h3, h4⟩
+
+/-- In a non-blocking iteration the clock of the timer phase is the clock the iteration began with. -/
+theorem phase_clock_of_tick (st : St) :
+    phaseClock { st with stillRunning := true, log := [] } true = st.clockUs := phaseClock_nohang _
+
+/-- The hypotheses are met and the conclusion is not vacuous: a due timer, a timer whose deadline lies in the past, a
+    deferred callback, and a timer that is not yet due, over one iteration. -/
+example : ((runOps .repaired [.act (.timer 0 0 0), .act (.timerAt 1 999 0 0), .act (.later 2 0), .act (.timer 3 5 0)]).slots.map
+      (fun r => (r.k, r.handle, r.fires))) = [(0, 2, 0), (1, 3, 0), (2, 4, 0), (3, 5, 0)] ∧
+    (runOps .repaired [.act (.timer 0 0 0), .act (.timerAt 1 999 0 0), .act (.later 2 0), .act (.timer 3 5 0)]).timers = [3, 2, 5] ∧
+    (runOps .repaired [.act (.timer 0 0 0), .act (.timerAt 1 999 0 0), .act (.later 2 0), .act (.timer 3 5 0)]).laters = [4] ∧
+    (runOps .repaired ([.act (.timer 0 0 0), .act (.timerAt 1 999 0 0), .act (.later 2 0), .act (.timer 3 5 0)] ++ [.tick])).status = .ok ∧
+    (runOps .repaired ([.act (.timer 0 0 0), .act (.timerAt 1 999 0 0), .act (.later 2 0), .act (.timer 3 5 0)] ++ [.tick])).cancelReq = [] ∧
+    ((runOps .repaired ([.act (.timer 0 0 0), .act (.timerAt 1 999 0 0), .act (.later 2 0), .act (.timer 3 5 0)] ++ [.tick])).slots.map
+      (fun r => (r.k, r.fires))) = [(0, 1), (1, 1), (2, 1), (3, 0)] := by decide +kernel
+
 /-! ### statements of the property that are not proved (engines.d/C17.json: open_statements) -/
 
-/-- No undefined behaviour on valid usage under the repaired source (three use-after-free remain in the
-    shipped tree *and* after the proposed patches: see known/C17.json, known/C18.json). -/
+/-- No undefined behaviour on valid usage under the repaired source (every use-after-free found so far is repaired in
+    /repo: known/C17.json, known/C18.json list them as fixed; the statement for all histories is not proved). -/
 def no_ub_full : Prop :=
   ∀ (ops : List Op), (∀ w, (runOps .repaired ops).status ≠ .ub w)
 
